@@ -80,6 +80,7 @@ type alphSim struct {
 	nCount    int
 	onCount   map[int]func() // run (under the lock) right after the k-th current-count request was answered
 	faults    map[string]int
+	drain     func(n int) // called under the lock before every request is answered: n = requests answered so far
 }
 
 func newAlphSim(govAddr string) *alphSim {
@@ -138,6 +139,9 @@ func (s *alphSim) RoundTrip(r *http.Request) (*http.Response, error) {
 	}
 	s.mu.Lock()
 	defer s.mu.Unlock()
+	if s.drain != nil {
+		s.drain(len(s.reqs))
+	}
 	p := r.URL.Path
 	q := r.URL.Query()
 	line := r.Method + " " + p + "?" + r.URL.RawQuery
